@@ -588,31 +588,48 @@ def plan_label(p):
 def hexs(b):
     return bytes(b).hex()
 
-def file_events(R, cfg_dict=None):
-    """Events for spec/TraceEncXzFile.tla from the glue field parser (R.parse must exist for .xz) or alone.parse."""
+def _split_name(name):
+    """glue field name -> (g, f, k) of spec/EncXzFile.tla."""
+    parts = name.split(".")
+    k = -1
+    if len(parts) >= 2 and parts[1] == "header" and len(parts) == 3:
+        return "sheader", parts[2], k
+    if len(parts) >= 3 and parts[1].startswith("b") and parts[2] == "header":
+        if len(parts) == 5:         # s0.b0.header.f1.id
+            k = int(parts[3][1:])
+            return "bheader", {"id": "fid", "props_size": "fpsize", "props": "fprops"}[parts[4]], k
+        return "bheader", parts[3], k
+    if len(parts) == 3 and parts[1].startswith("b"):
+        return "block", parts[2], k
+    if parts[1] == "index":
+        if len(parts) == 4:
+            return "index", parts[3], int(parts[2][1:])
+        return "index", parts[2], k
+    if parts[1] == "footer":
+        return "footer", parts[2], k
+    if parts[1] == "padding":
+        return "spad", "padding", k
+    return "?", name, k
+
+def file_reset(R, label):
     info = R.info
-    label = plan_label(R.plan) + "/n%d" % len(R.data)
-    out = R.out
-    if R.kind == "alone":
-        A = galone.parse(out, collect='stats')
-        ev = [{"e": "Reset", "fmt": "lzma", "id": label, "flen": len(out), "inlen": len(R.data), "dict": info["dict_size"],
-               "lc": info["lc"], "lp": info["lp"], "pb": info["pb"]},
-              {"e": "AloneHeader", "props": out[0] if out else -1, "dictlo": struct.unpack_from("<I", out, 1)[0] % 65536 if len(out) >= 13 else -1,
-               "dicthi": struct.unpack_from("<I", out, 1)[0] // 65536 if len(out) >= 13 else -1,
-               "usize": hexs(out[5:13]),
-               "maxdist": A.lzma.stats["max_dist"] if A.lzma is not None and A.lzma.stats else 0,
-               "eopm": (A.lzma.status == "ok_eopm") if A.lzma is not None else False,
-               "verdict": A.verdict, "consumed": A.consumed, "outlen": len(A.out), "outdig": dig(A.out), "indig": dig(R.data)}]
-        return label, ev
-    P = getattr(R, "parse", None) or gxz.parse(out, collect='stats')
-    R.parse = P
-    ev = [{"e": "Reset", "fmt": "xz", "id": label, "flen": len(out), "inlen": len(R.data), "indig": dig(R.data),
-           "dict": info["dict_size"], "check": info["check"], "lc": info["lc"], "lp": info["lp"], "pb": info["pb"],
-           "nfilters": len(info["specs"]), "fids": [int(f) for f, _ in info["specs"]],
-           "entry": info["entry"]}]
-    # measured facts per Block, attached to the 'data' field event
+    fids, fps, fpr = [], [], []
+    for fid, opt in info["specs"]:
+        fids.append(int(fid) if fid < (1 << 31) else -1)
+        if fid == lz.FILTER_DELTA:
+            fps.append(1); fpr.append("%02x" % (opt.dist - 1))
+        elif fid == lz.FILTER_LZMA2:
+            fps.append(1); fpr.append("")
+        else:
+            fps.append(0); fpr.append("")
+    return {"e": "Reset", "fmt": "xz" if R.kind == "xz" else "lzma", "id": label, "flen": len(R.out), "inlen": len(R.data),
+            "indig": dig(R.data), "dict": info["dict_size"], "check": info["check"], "lc": info["lc"], "lp": info["lp"],
+            "pb": info["pb"], "nfilters": len(info["specs"]), "fids": fids, "fpsizes": fps, "fprops": fpr,
+            "entry": info["entry"]}
+
+def field_events(P, out):
+    """XzResult + file bytes -> normalized F events (every event has every field) and the EOF event."""
     bmeta = {}
-    off = 0
     for si, S in enumerate(P.streams):
         for bi, B in enumerate(S["blocks"]):
             md = 0
@@ -621,51 +638,68 @@ def file_events(R, cfg_dict=None):
                 for ck in l2.chunks:
                     if ck.get("stats"):
                         md = max(md, ck["stats"]["max_dist"])
-            osz = B.get("out_size", 0)
-            bmeta["s%d.b%d." % (si, bi)] = dict(maxdist=md, usize=osz, data=P.outputs[len(bmeta)] if len(bmeta) < len(P.outputs) else b"")
-            off += osz
+            n = len(bmeta)
+            bmeta["s%d.b%d" % (si, bi)] = dict(maxdist=md, usize=B.get("out_size", -1),
+                                                 data=P.outputs[n] if n < len(P.outputs) else b"")
+    offs = {nm: o for nm, o, ln, val in P.events}
+    ev = []
     for name, o, ln, val in P.events:
-        d = {"e": "F", "n": name, "o": o, "l": ln}
-        parts = name.split(".")
-        leaf = parts[-1]
-        grp = parts[-2] if len(parts) >= 2 else ""
+        g, f, k = _split_name(name)
+        d = {"e": "F", "g": g, "f": f, "k": k, "o": o, "l": ln, "v": -1, "x": "", "z": False, "calc": "", "b0": -1, "b1": -1,
+             "usize": -1, "maxdist": -1, "n": name, "bad": False}
+        raw = out[o:o + ln]
         if isinstance(val, int):
-            if leaf == "crc32":
+            if f == "crc32":
                 d["x"] = "%08x" % val
             elif val < (1 << 31):
                 d["v"] = val
-            else:
-                d["v"] = -1; d["big"] = str(val)
-        elif isinstance(val, (bytes, bytearray)):
-            d["x"] = hexs(val) if len(val) <= 64 else dig(val)
-            d["z"] = not any(val)
-        # independently computed reference values
-        if leaf == "crc32":
-            if grp == "header" and len(parts) == 3:          # stream header: CRC32 of the Stream Flags
+        if f != "data":
+            d["z"] = not any(raw)
+            if ln <= 64 and f != "crc32":
+                d["x"] = hexs(raw)
+            if ln >= 1:
+                d["b0"] = raw[0]
+            if ln >= 2:
+                d["b1"] = raw[1]
+        pre = name.rsplit(".", 1)[0]
+        # reference values computed with the glue's own CRC code over the ranges the format prescribes
+        if f == "crc32":
+            if g == "sheader":
                 d["calc"] = "%08x" % gcrc.crc32(out[o - 2:o])
-            elif grp == "header":                            # block header: everything before the CRC
-                hs = (out[_field_off(P, ".".join(parts[:-1]) + ".size")] + 1) * 4
-                d["calc"] = "%08x" % gcrc.crc32(out[o + 4 - hs:o])
-            elif grp == "index":
-                st = _field_off(P, ".".join(parts[:-1]) + ".indicator")
+            elif g == "bheader":
+                st = offs[pre + ".size"]
                 d["calc"] = "%08x" % gcrc.crc32(out[st:o])
-            elif grp == "footer":
+            elif g == "index":
+                d["calc"] = "%08x" % gcrc.crc32(out[offs[pre + ".indicator"]:o])
+            elif g == "footer":
                 d["calc"] = "%08x" % gcrc.crc32(out[o + 4:o + 10])
-        if leaf == "check":
-            pre = ".".join(parts[:-1]) + "."
+        if g == "block" and f == "check":
             bm = bmeta.get(pre)
-            cid = out[_field_off(P, parts[0] + ".header.flags") + 1] & 0x0F
-            d["calc"] = hexs(gcrc.check_bytes(cid, bm["data"])) if bm else ""
-            d["x"] = hexs(val)
-        if leaf == "data":
-            bm = bmeta.get(".".join(parts[:-1]) + ".")
+            cid = out[offs[name.split(".")[0] + ".header.flags"] + 1] & 0x0F
+            d["calc"] = hexs(gcrc.check_bytes(cid, bm["data"])) if bm else "?"
+        if g == "block" and f == "data":
+            bm = bmeta.get(pre)
             d["usize"] = bm["usize"]; d["maxdist"] = bm["maxdist"]
         ev.append(d)
-    ev.append({"e": "EOF", "verdict": P.verdict, "consumed": P.consumed, "outlen": len(P.output), "outdig": dig(P.output)})
-    return label, ev
+    ev.append({"e": "EOF", "verdict": P.verdict, "consumed": P.consumed, "outlen": len(P.output), "outdig": dig(P.output),
+               "detail": P.detail[:200]})
+    return ev
 
-def _field_off(P, name):
-    for nm, o, ln, val in P.events:
-        if nm == name:
-            return o
-    raise KeyError(name)
+def file_events(R):
+    """(label, events) for spec/TraceEncXzFile.tla from the glue field parser (.xz) or from the 13 header bytes (.lzma)."""
+    info = R.info
+    label = plan_label(R.plan) + "/n%d" % len(R.data)
+    out = R.out
+    rs = file_reset(R, label)
+    if R.kind == "alone":
+        A = galone.parse(out, collect='stats')
+        dsz = struct.unpack_from("<I", out, 1)[0] if len(out) >= 13 else 0
+        st = A.lzma.stats if A.lzma is not None and A.lzma.stats else None
+        return label, [rs, {"e": "AloneHeader", "props": out[0] if out else -1, "dictlo": dsz % 65536, "dicthi": dsz // 65536,
+                            "usize": hexs(out[5:13]), "maxdist": st["max_dist"] if st else 0,
+                            "eopm": bool(A.lzma is not None and A.lzma.status == "ok_eopm"),
+                            "verdict": A.verdict, "consumed": A.consumed, "outlen": len(A.out), "outdig": dig(A.out),
+                            "indig": dig(R.data)}]
+    P = getattr(R, "parse", None) or gxz.parse(out, collect='stats')
+    R.parse = P
+    return label, [rs] + field_events(P, out)
